@@ -3,6 +3,8 @@ pub mod c02;
 pub mod c03;
 pub mod c05;
 pub mod c07;
+pub mod c08;
+pub mod c09;
 
 use engine::Space;
 
@@ -13,6 +15,8 @@ pub fn build(id: &str, tier: &str, _seed: u64) -> Option<Box<dyn Space + Sync + 
         "C03" => Box::new(c03::C03::new(tier)),
         "C05" => Box::new(c05::C05::new(tier)),
         "C07" => Box::new(c07::C07::new(tier)),
+        "C08" => Box::new(c08::C08::new(tier)),
+        "C09" => Box::new(c09::C09::new(tier)),
         _ => return None,
     })
 }
